@@ -443,6 +443,9 @@ package sshd
 
 //@ pred SshdOK(p) := p != nil && cast(p, "*processors/sshd.SshdProcessorer").metrics != nil && cast(p, "*processors/sshd.SshdProcessorer").eventW != nil
 //@   | && cast(p, "*processors/sshd.SshdProcessorer").metrics.remoteLogins != nil
+// Causal order (C10): a login handed to the correlator carries an event that has already been written.
+//@ pred Written(src) := writtenat(src) > 0 && writtenat(src) <= len(out) && out[writtenat(src) - 1].ref == src
+//@ chaninv common.RemoteUserLogin : v.Source != nil && Written(v.Source)
 //@ ghost g_sshd_calls : Int
 //@ ghost g_sshd_pid : String
 //@ ghost g_sshd_msg : String
